@@ -1,6 +1,8 @@
 import Ivg.Lemmas.ColorCodec
 import Ivg.Lemmas.Codec
-import Ivg.Gen.Tie
+import Ivg.Gen.Tie.Dc1
+import Ivg.Gen.Tie.DrawOps
+import Ivg.Gen.Tie.Magic
 import Ivg.Obligations
 /-!
 # C09 — colours are stored exactly; colour forms and blending follow the tables
